@@ -80,15 +80,15 @@ def model_witness(cls):
     n = cls.__name__
     if n == "NoneItem":
         return T.NONE_ITEM
-    if n in ("Word",):
-        return T.Word("w")
+    if n in ("Word", "Term"):
+        return cls("w")
     if n == "Phrase":
         return T.Phrase('"p"')
     if n == "Regex":
         return T.Regex("/r/")
     if n == "SearchField":
         return T.SearchField("f", w)
-    if n in ("Group", "FieldGroup", "Plus", "Not", "Prohibit"):
+    if n in ("Group", "FieldGroup", "BaseGroup", "Plus", "Not", "Prohibit"):
         return cls(w)
     if n == "Range":
         return T.Range(T.Word("a"), T.Word("b"))
